@@ -44,7 +44,7 @@ struct C18 : Property
 	}
 	std::vector<std::string> probes() const override
 	{
-		return {"W1.last_put_by_non_creator_thread", "W1.switch_inside_put_before_destroy", "W1.container_children_destroyed_once", "W1.three_or_more_threads", "W3.two_threads_past_unset_test_before_cas",
+		return {"W1.last_put_by_non_creator_thread", "W1.switch_inside_put_before_destroy", "W1.container_children_destroyed_once", "W1.three_or_more_threads", "W1.thread_holds_child_of_shared_container", "W3.two_threads_past_unset_test_before_cas",
 		        "W3.seed_source_returned_minus_one", "W3.lost_cas_thread_uses_winner_seed", "W4.disjoint_trees_no_conflict", "sched.pct_policy", "sched.random_policy", "atomics.seen"};
 	}
 	std::vector<std::string> probes_expected_zero() const override { return {"W1.switch_between_load_and_store_of_counter"}; }
@@ -142,7 +142,7 @@ struct C18 : Property
 		std::vector<int> destroyed;                          // destruction callbacks per node
 		std::vector<int> destroyed_by;                       // thread that ran the callback
 		std::vector<int> freed_returns;                      // puts that returned 1 per node
-		std::vector<int> child_destroyed;                    // per child id
+		std::vector<int> parent_of;                          // per node: index of the container that holds it, or -1
 		std::vector<std::vector<std::array<int, 2>>> script; // per thread: (action, node)
 		std::vector<std::string> errors;
 		std::vector<uint64_t> put_invoke_seq;
@@ -158,13 +158,9 @@ struct C18 : Property
 	{
 		HarnessScope hs;
 		Shared &s = *g_sh;
-		intptr_t v = (intptr_t)ud;
-		if (v >= 1000)
-		{
-			s.child_destroyed[(size_t)(v - 1000)]++;
-			return;
-		}
-		size_t n = (size_t)v;
+		size_t n = (size_t)(intptr_t)ud;
+		if (s.parent_of[n] >= 0 && s.destroyed[(size_t)s.parent_of[n]] == 0)
+			s.errors.push_back("C18:child-destroyed-before-parent|child node " + std::to_string(n) + " was destroyed while its parent container (which holds a reference to it) is alive");
 		s.destroyed[n]++;
 		s.destroyed_by[n] = simthr_self();
 		int outstanding = 0;
@@ -378,46 +374,47 @@ struct C18 : Property
 		std::vector<ThreadArg> targs((size_t)nthreads);
 		std::vector<std::string> refs; // W4 single-thread references
 		size_t nchildren = 0;
-		std::vector<int> node_children;
 		if (workload == 1)
 		{
-			// ---- build shared nodes (controller, before the threads exist)
+			// ---- build shared nodes (controller, before the threads exist): parents first, then the children of the containers.
+			// Children are shared nodes of their own: a thread may hold references to a child while another thread drops the last
+			// reference to its parent (the parent's slot reference is then released by whoever destroys the parent).
+			std::vector<int> kinds;
 			for (auto &op : p.ops)
-				if (op.kind == "node" && s.nodes.size() < 3)
+				if (op.kind == "node" && kinds.size() < 3)
+					kinds.push_back((int)(op.arg(0) % 4));
+			if (kinds.empty())
+				return;
+			size_t np = kinds.size();
+			for (size_t i = 0; i < np; i++)
+			{
+				struct json_object *o;
+				switch (kinds[i])
 				{
-					struct json_object *o;
-					int kids = 0;
-					switch (op.arg(0) % 4)
-					{
-					case 0: o = LIB(json_object_new_int64(77)); break;
-					case 1: o = LIB(json_object_new_string("a shared string")); break;
-					case 2:
-						o = LIB(json_object_new_array());
-						kids = 2;
-						break;
-					default:
-						o = LIB(json_object_new_object());
-						kids = 2;
-						break;
-					}
-					for (int k = 0; k < kids; k++)
+				case 0: o = LIB(json_object_new_int64(77)); break;
+				case 1: o = LIB(json_object_new_string("a shared string")); break;
+				case 2: o = LIB(json_object_new_array()); break;
+				default: o = LIB(json_object_new_object()); break;
+				}
+				LIBV(json_object_set_userdata(o, (void *)(intptr_t)i, node_deleted));
+				s.nodes.push_back(o);
+				s.parent_of.push_back(-1);
+			}
+			for (size_t i = 0; i < np; i++)
+				if (kinds[i] >= 2)
+					for (int k = 0; k < 2; k++)
 					{
 						struct json_object *c = LIB(json_object_new_int64(k));
-						LIBV(json_object_set_userdata(c, (void *)(intptr_t)(1000 + nchildren), node_deleted));
-						nchildren++;
-						if (json_object_get_type(o) == json_type_array)
-							LIB(json_object_array_add(o, c));
+						LIBV(json_object_set_userdata(c, (void *)(intptr_t)s.nodes.size(), node_deleted));
+						if (kinds[i] == 2)
+							LIB(json_object_array_add(s.nodes[i], c));
 						else
-							LIB(json_object_object_add(o, k ? "b" : "a", c));
+							LIB(json_object_object_add(s.nodes[i], k ? "b" : "a", c));
+						s.nodes.push_back(c);
+						s.parent_of.push_back((int)i);
+						nchildren++;
 					}
-					node_children.push_back(kids);
-					LIBV(json_object_set_userdata(o, (void *)(intptr_t)s.nodes.size(), node_deleted));
-					s.nodes.push_back(o);
-				}
-			if (s.nodes.empty())
-				return;
 			size_t nn = s.nodes.size();
-			s.child_destroyed.assign(nchildren, 0);
 			s.destroyed.assign(nn, 0);
 			s.destroyed_by.assign(nn, -1);
 			s.freed_returns.assign(nn, 0);
@@ -427,13 +424,17 @@ struct C18 : Property
 			{
 				int t = (int)(op.arg(0) % nthreads);
 				if (op.kind == "own")
-					for (size_t n = 0; n < nn; n++)
+				{
+					for (size_t n = 0; n < np; n++)
 						s.owned[(size_t)t][n] = (int)(op.arg(1 + n) % 3);
+					for (size_t n = np; n < nn; n++)
+						s.owned[(size_t)t][n] = (int)((op.arg(1 + (n % np)) + (int64_t)n + t) % 2); // some threads also hold a child
+				}
 				else if (op.kind == "t")
 					s.script[(size_t)t].push_back({(int)(op.arg(1) % 3), (int)(op.arg(2) % (int64_t)nn)});
 			}
-			// every node must be owned by somebody: thread 0 takes one reference of otherwise unowned nodes
-			for (size_t n = 0; n < nn; n++)
+			// every parent must be owned by somebody: thread 0 takes one reference of otherwise unowned parents
+			for (size_t n = 0; n < np; n++)
 			{
 				int tot = 0;
 				for (int t = 0; t < nthreads; t++)
@@ -441,14 +442,17 @@ struct C18 : Property
 				if (tot == 0)
 					s.owned[0][n] = 1;
 			}
-			// hand out the references: the creator's own reference becomes the first one, the rest are acquired with get
+			// hand out the references: a parent's creator reference becomes the first one, the rest are acquired with get;
+			// a child's creator reference went to its parent's slot, so every thread reference to a child is an extra get
 			for (size_t n = 0; n < nn; n++)
 			{
 				int tot = 0;
 				for (int t = 0; t < nthreads; t++)
 					tot += s.owned[(size_t)t][n];
-				for (int k = 1; k < tot; k++)
+				for (int k = (n < np ? 1 : 0); k < tot; k++)
 					LIB(json_object_get(s.nodes[n]));
+				if (n >= np && tot > 0)
+					ctx.probe("W1.thread_holds_child_of_shared_container");
 			}
 		}
 		else if (workload == 4)
@@ -531,19 +535,15 @@ struct C18 : Property
 				if (s.destroyed[n] != 1)
 					ctx.fail(s.destroyed[n] == 0 ? "C18:never-destroyed" : "C18:destroyed-twice", "node %zu: every reference was released but its destruction callback ran %d time(s) (lost update on the counter)", n,
 					         s.destroyed[n]);
-				if (s.freed_returns[n] != 1)
-					ctx.fail("C18:put-return-mismatch", "node %zu: %d call(s) of json_object_put returned 1, exactly one must", n, s.freed_returns[n]);
+				if (s.parent_of[n] < 0 ? s.freed_returns[n] != 1 : s.freed_returns[n] > 1)
+					ctx.fail("C18:put-return-mismatch", "node %zu: %d call(s) of json_object_put by the threads returned 1 (a node dies once: exactly one for a parent, at most one for a child)", n,
+					         s.freed_returns[n]);
 				if (s.destroyed_by[n] > 1)
 					ctx.probe("W1.last_put_by_non_creator_thread");
 			}
-			size_t ci = 0;
-			for (size_t n = 0; n < node_children.size(); n++)
-				for (int k = 0; k < node_children[n]; k++, ci++)
-				{
-					if (s.child_destroyed[ci] != 1)
-						ctx.fail("C18:child-destruction-mismatch", "child %d of shared container %zu was destroyed %d time(s)", k, n, s.child_destroyed[ci]);
+			for (size_t n = 0; n < s.nodes.size(); n++)
+				if (s.parent_of[n] >= 0)
 					ctx.probe("W1.container_children_destroyed_once");
-				}
 			if (nthreads >= 3)
 				ctx.probe("W1.three_or_more_threads");
 			if (st.rmw_split_switches)
